@@ -277,3 +277,13 @@ Proof. vm_compute. reflexivity. Qed.
 Example ex_reproduce_ok :
   fst (fst (reproduce (Build_rparams 4 (3 # 4)%Q 5 5) 6 (fun i _ => if Nat.eqb i 0 then [e_a; e_b] else [e_b; e_c]) (fun _ _ => false) [1%Q])) = RetOk [e_a; e_b; e_c].
 Proof. vm_compute. reflexivity. Qed.
+(* the relation accepts a real run with repeats and ties, on a consistent population *)
+Example ex_admits : sel_admits Tournament [e_a; e_b; e_a; e_c; e_b] 2 (Some [e_b; e_a]) = true /\
+  sel_admits Spea2 [e_a; e_b; e_a; e_c; e_b] 2 (Some [e_b; e_a]) = true /\
+  sel_admits Tournament [e_a; e_b; e_a; e_c; e_b] 2 (Some [e_c; e_a]) = false.
+Proof. vm_compute. auto. Qed.
+Example ex_consistent : consistent [e_a; e_b; e_a; e_c; e_b].
+Proof.
+  intros a b Ha Hb. simpl in Ha, Hb.
+  destruct Ha as [<-|[<-|[<-|[<-|[<-|[]]]]]], Hb as [<-|[<-|[<-|[<-|[<-|[]]]]]]; simpl; intros E; try reflexivity; discriminate.
+Qed.
